@@ -1,3 +1,321 @@
-use crate::Ctx;
-pub fn c05(_: &mut Ctx) {} pub fn c06(_: &mut Ctx) {} pub fn c07(_: &mut Ctx) {} pub fn c08(_: &mut Ctx) {} pub fn c09(_: &mut Ctx) {} pub fn c10(_: &mut Ctx) {} pub fn c19(_: &mut Ctx) {}
-pub fn witness(_: &str, _: &[String], _: &mut Ctx) -> Option<String> { None }
+//! XPath properties: C05 (values), C06 (totality), C07 (node-set invariants and algebra),
+//! C08 (equivalent spellings, precedence), C09 (scalar library), C10 (namespaces), C19 (determinism).
+use crate::model::{self, Doc, GenCfg, Gen, Style};
+use crate::refxml;
+use crate::rng::Rng;
+use crate::xp::{self, Axis, Env, Expr, Op, RErr, RKind, RTree, Spelling, Start, Step, Test, XGen, RV};
+use crate::{guarded, norm_msg, Caught, Ctx};
+use std::collections::HashMap;
+use xml_dom::{AsExpandedName, AsNode, Attr, Node as DomNode};
+use xml_xpath::eval::model::{Context as XContext, Value};
+
+// ------------------------------------------------------------------------------------------------
+// outcomes in a comparable form
+
+#[derive(Clone, Debug, PartialEq)]
+pub enum Outcome { Nodes(Vec<String>), Bool(bool), Num(f64), Str(String), Err(String), Panic(String), Steps }
+
+impl Outcome {
+    pub fn brief(&self) -> String {
+        match self {
+            Outcome::Nodes(v) => format!("nodes[{}]{{{}}}", v.len(), crate::util::truncate(&v.join(" "), 200)),
+            Outcome::Bool(b) => format!("bool {}", b), Outcome::Num(n) => format!("num {}", xp::num_to_str(*n)), Outcome::Str(s) => format!("str {:?}", crate::util::truncate(s, 120)),
+            Outcome::Err(e) => format!("error {}", e), Outcome::Panic(p) => format!("PANIC {}", p), Outcome::Steps => "STEP BUDGET EXCEEDED".into(),
+        }
+    }
+}
+
+fn num_same(a: f64, b: f64) -> bool { (a.is_nan() && b.is_nan()) || a == b }
+
+/// locators of namespace nodes are compared without their owner (namespace nodes have no usable identity in xml-rs)
+fn canon_loc(l: &str) -> String { match l.find('#') { Some(p) => l[p..].to_string(), None => l.to_string() } }
+
+/// within the attributes (and namespace nodes) of one element the order is implementation dependent
+fn canon_seq(v: &[String]) -> Vec<String> {
+    let mut out: Vec<String> = vec![];
+    let mut i = 0;
+    while i < v.len() {
+        let owner = |s: &str| -> Option<String> { s.find('@').map(|p| s[..p].to_string()) };
+        if let Some(o) = owner(&v[i]) {
+            let mut j = i; let mut grp = vec![];
+            while j < v.len() && owner(&v[j]).as_deref() == Some(o.as_str()) { grp.push(v[j].clone()); j += 1; }
+            grp.sort(); out.extend(grp); i = j;
+        } else if v[i].starts_with('#') {
+            let mut j = i; let mut grp = vec![];
+            while j < v.len() && v[j].starts_with('#') { grp.push(v[j].clone()); j += 1; }
+            grp.sort(); out.extend(grp); i = j;
+        } else { out.push(v[i].clone()); i += 1; }
+    }
+    out
+}
+
+/// None = equal; Some(kind) = how they differ
+pub fn diff(expected: &Outcome, observed: &Outcome) -> Option<&'static str> {
+    match (expected, observed) {
+        (Outcome::Nodes(a), Outcome::Nodes(b)) => {
+            let (a, b): (Vec<String>, Vec<String>) = (a.iter().map(|x| canon_loc(x)).collect(), b.iter().map(|x| canon_loc(x)).collect());
+            let mut sb = b.clone(); sb.sort(); let before = sb.len(); sb.dedup();
+            let mut sa = a.clone(); sa.sort(); sa.dedup();
+            if sa != sb { return Some("nodeset-members"); }
+            if before != sb.len() && a.len() == sa.len() { return Some("nodeset-dup"); }
+            if canon_seq(&a) != canon_seq(&b) { return Some("nodeset-order"); }
+            None
+        }
+        (Outcome::Bool(a), Outcome::Bool(b)) => if a == b { None } else { Some("bool") },
+        (Outcome::Num(a), Outcome::Num(b)) => if num_same(*a, *b) { None } else { Some("num") },
+        (Outcome::Str(a), Outcome::Str(b)) => if a == b { None } else { Some("str") },
+        (Outcome::Err(_), Outcome::Err(_)) => None,
+        (Outcome::Err(_), Outcome::Panic(_)) | (_, Outcome::Panic(_)) => Some("panic"),
+        (_, Outcome::Steps) => Some("steps"),
+        (Outcome::Err(_), _) => Some("value-where-error-expected"),
+        (_, Outcome::Err(_)) => Some("error-where-value-expected"),
+        _ => Some("value-kind"),
+    }
+}
+
+// ------------------------------------------------------------------------------------------------
+// xml-rs side
+
+pub struct Subject { pub dom: xml_dom::XmlDocument, pub idmap: HashMap<usize, String> }
+
+fn attr_qname(a: &xml_dom::XmlAttr) -> String {
+    let n = a.as_node();
+    match n.as_expanded_name() { Ok(Some((l, Some(p), _))) if p != "xmlns" => format!("{}:{}", p, l), _ => a.name() }
+}
+
+fn map_node(n: &xml_dom::XmlNode, loc: String, map: &mut HashMap<usize, String>, budget: &mut usize) {
+    if *budget == 0 { return; }
+    *budget -= 1;
+    map.insert(n.id(), loc.clone());
+    if let xml_dom::XmlNode::Element(e) = n {
+        if let Some(attrs) = e.attributes() { for a in attrs.iter() { let id = a.as_node().id(); if id != 0 { map.insert(id, format!("{}@{}", loc, attr_qname(&a))); } } }
+        let mut idx = 0;
+        for c in e.child_nodes().iter() {
+            // an empty merged text node does not exist in the XPath data model
+            if let xml_dom::XmlNode::ExpandedText(t) = &c { if xml_dom::CharacterData::data(t).map(|d| d.is_empty()).unwrap_or(false) { map.insert(c.id(), format!("{}/empty-text", loc)); continue; } }
+            map_node(&c, format!("{}/{}", loc, idx), map, budget);
+            idx += 1;
+        }
+    }
+}
+
+pub fn subject(text: &str, merged: bool) -> Result<Subject, String> {
+    let p = crate::obs::parse_dom(text, merged)?;
+    if p.rest != 0 { return Err("rest".into()); }
+    let mut map = HashMap::new();
+    map.insert(p.doc.as_node().id(), "/".to_string());
+    let mut idx = 0; let mut budget = 100_000usize;
+    for c in p.doc.child_nodes().iter() {
+        if let xml_dom::XmlNode::DocumentType(_) = c { map.insert(c.id(), "!doctype".into()); continue; }
+        map_node(&c, format!("/{}", idx), &mut map, &mut budget);
+        idx += 1;
+    }
+    Ok(Subject { dom: p.doc, idmap: map })
+}
+
+pub fn locator_of(s: &Subject, n: &xml_dom::XmlNode) -> String {
+    match n {
+        xml_dom::XmlNode::Namespace(ns) => format!("#{}={}", { let p = ns.node_name(); if p == "xmlns" { String::new() } else { p } }, ns.node_value().ok().flatten().unwrap_or_default()),
+        xml_dom::XmlNode::Attribute(a) if n.id() == 0 => format!("?@{}", attr_qname(a)),
+        _ => s.idmap.get(&n.id()).cloned().unwrap_or_else(|| format!("?unmapped-{:?}-{}", n.node_type(), n.id())),
+    }
+}
+
+pub const STEP_BUDGET: u64 = 20_000_000;
+
+pub fn value_outcome(s: &Subject, v: Result<Value, String>) -> Outcome {
+    match v {
+        Ok(Value::Node(ns)) => Outcome::Nodes(ns.iter().map(|n| locator_of(s, n)).collect()),
+        Ok(Value::Boolean(b)) => Outcome::Bool(b),
+        Ok(Value::Number(n)) => Outcome::Num(n),
+        Ok(Value::Text(t)) => Outcome::Str(t),
+        Err(e) => Outcome::Err(e),
+    }
+}
+
+/// evaluate with xml-rs under a fresh context; returns the outcome and the logical steps used
+pub fn xmlrs_eval(s: &Subject, expr: &str, ns: &[(String, String)], default_ns: Option<&str>, budget: u64) -> (Outcome, u64) {
+    let mut cx = XContext::default();
+    for (p, u) in ns { cx.add_ns(Some(p.as_str()), u.as_str()); }
+    if let Some(d) = default_ns { cx.add_ns(None, d); }
+    xmlrs_eval_cx(s, expr, &mut cx, budget)
+}
+
+pub fn xmlrs_eval_cx(s: &Subject, expr: &str, cx: &mut XContext, budget: u64) -> (Outcome, u64) {
+    xml_nom::verif::reset();
+    xml_nom::verif::set_budget(budget);
+    let r = guarded(|| xml_xpath::query(s.dom.clone(), expr, cx).map_err(|e| match e { xml_xpath::error::Error::ExprRemain(r) => format!("syntax(remain {:?})", crate::util::truncate(r, 20)), xml_xpath::error::Error::ExprSyntax(_) => "syntax".to_string(), xml_xpath::error::Error::Eval(ev) => format!("eval({:?})", ev) }));
+    let steps = xml_nom::verif::read();
+    let o = match r {
+        Caught::Ok(v) => value_outcome(s, v),
+        Caught::Panic { file, msg } => Outcome::Panic(format!("{}/{}", file, norm_msg(&msg))),
+        Caught::Budget(_) => Outcome::Steps,
+    };
+    (o, steps)
+}
+
+// ------------------------------------------------------------------------------------------------
+// references
+
+pub fn ref_outcome(tree: &RTree, v: Result<RV, RErr>) -> Outcome {
+    match v {
+        Ok(RV::Nodes(ns)) => Outcome::Nodes(ns.iter().map(|&n| tree.nodes[n].locator.clone()).collect()),
+        Ok(RV::Bool(b)) => Outcome::Bool(b), Ok(RV::Num(n)) => Outcome::Num(n), Ok(RV::Str(s)) => Outcome::Str(s),
+        Err(e) => Outcome::Err(format!("{:?}", e)),
+    }
+}
+
+pub fn ref_eval(tree: &RTree, e: &Expr, ns: &[(String, String)], default_ns: Option<&str>) -> Outcome {
+    let env = Env { tree, ns: ns.to_vec(), default_ns: default_ns.map(|s| s.to_string()) };
+    ref_outcome(tree, env.eval(e, xp::Cx { node: 0, pos: 1, size: 1 }))
+}
+
+fn unesc(s: &str) -> String {
+    let s = s.trim(); let s = s.strip_prefix('"').unwrap_or(s); let s = s.strip_suffix('"').unwrap_or(s);
+    let mut o = String::new(); let mut it = s.chars();
+    while let Some(c) = it.next() { if c == '\\' { match it.next() { Some('n') => o.push('\n'), Some('r') => o.push('\r'), Some('t') => o.push('\t'), Some('q') => o.push('"'), Some('\\') => o.push('\\'), _ => {} } } else { o.push(c); } }
+    o
+}
+
+/// libxml2's outcome (O3); None when libxml2 cannot be asked (NUL in the expression, document not accepted)
+pub fn lib_eval(text: &str, expr: &str, ns: &[(String, String)]) -> Option<Outcome> {
+    let out = refxml::xpath(text, expr, ns)?;
+    let mut lines = out.lines();
+    let head = lines.next()?;
+    if head == "NODOC" { return None; }
+    if head == "ERR" || head == "OTHER" { return Some(Outcome::Err("libxml2".into())); }
+    let (k, rest) = head.split_at(1);
+    match k {
+        "N" => Some(Outcome::Nodes(lines.map(|l| l.to_string()).collect())),
+        "B" => Some(Outcome::Bool(rest.trim() == "true")),
+        "F" => { let t = rest.trim(); Some(Outcome::Num(match t { "NaN" => f64::NAN, "Infinity" => f64::INFINITY, "-Infinity" => f64::NEG_INFINITY, _ => t.parse().unwrap_or(f64::NAN) })) }
+        "S" => Some(Outcome::Str(unesc(rest))),
+        _ => None,
+    }
+}
+
+// ------------------------------------------------------------------------------------------------
+// shared case construction
+
+pub struct XCase { pub doc: Doc, pub text: String, pub tree: RTree, pub subj: Subject, pub ns: Vec<(String, String)> }
+
+/// generator profile for XPath documents: everything XPath can see; see known_findings.json for the exclusions
+pub fn xdoc_cfg() -> GenCfg {
+    let mut c = GenCfg::xpath();
+    c.attlist_effective = false; // defaulted attributes are synthesised on every access (no identity): own workload in C11
+    c
+}
+
+pub fn make_case(r: &mut Rng, cfg: GenCfg) -> Result<XCase, String> {
+    let doc = { let mut g = Gen::new(r, cfg); g.doc() };
+    let text = model::render(&doc, r, Style { minimal: false });
+    let tree = RTree::build(&doc);
+    let subj = subject(&text, true)?;
+    // caller bindings: the document's own prefixes bound to the same URIs where unambiguous, plus a renamed one
+    let mut ns: Vec<(String, String)> = vec![];
+    fn walk(e: &model::Elem, ns: &mut Vec<(String, String)>) { for (p, u) in &e.nsdecls { if let Some(p) = p { if !u.is_empty() && !ns.iter().any(|x| &x.0 == p) { ns.push((p.clone(), u.clone())); } } } for c in &e.children { if let model::Node::Elem(x) = c { walk(x, ns); } } }
+    walk(&doc.root, &mut ns);
+    Ok(XCase { doc, text, tree, subj, ns })
+}
+
+fn raw_equals_merged(doc: &Doc) -> bool {
+    fn ok(e: &model::Elem) -> bool { e.children.iter().all(|c| match c { model::Node::Elem(x) => ok(x), model::Node::CData(_) | model::Node::CharRef(..) | model::Node::EntRef(_) => false, _ => true }) }
+    ok(&doc.root)
+}
+
+/// the comparison of one (document, expression) pair. Returns (kind, detail) for a confirmed disagreement,
+/// Err(reason) when the references disagree with each other (inconclusive).
+pub fn judge(case: &XCase, e: &Expr, estr: &str, subj: &Subject) -> Result<Option<(&'static str, String)>, String> {
+    let exp = ref_eval(&case.tree, e, &case.ns, None);
+    let (got, _) = xmlrs_eval(subj, estr, &case.ns, None, STEP_BUDGET);
+    match diff(&exp, &got) {
+        None => Ok(None),
+        Some(kind) => {
+            // O3 must side with O2 (numbers -> strings are decided by O2 alone: libxml2 prints exponents)
+            match lib_eval(&case.text, estr, &case.ns) {
+                Some(l) => { if let Some(k2) = diff(&exp, &l) { let single = matches!((&exp, &l), (Outcome::Str(_), Outcome::Str(_))) && estr.contains("string") || estr.contains("concat"); if !single { return Err(format!("O2 {} vs O3 {} ({})", exp.brief(), l.brief(), k2)); } } }
+                None => return Err("libxml2 unavailable for this case".into()),
+            }
+            Ok(Some((kind, format!("expected {} observed {}", exp.brief(), got.brief()))))
+        }
+    }
+}
+
+fn features_sig(e: &Expr) -> String { xp::feature_set(e).into_iter().filter(|f| !matches!(f.as_str(), "num" | "lit" | "abs")).collect::<Vec<_>>().join("+") }
+
+// ------------------------------------------------------------------------------------------------
+// C05
+
+/// expression generator restricted to the zone in which no recorded finding is active
+pub fn c05_gen(doc: &Doc) -> XGen {
+    let mut g = XGen::for_doc(doc);
+    g.axes.retain(|a| *a != Axis::Namespace); // namespace axis: own sub-workload (no node identity in xml-rs)
+    g.funcs.retain(|f| *f != "id");
+    g
+}
+
+pub fn c05(ctx: &mut Ctx) {
+    let ndocs: u64 = if ctx.thorough { 40_000 } else { 1_600 };
+    let per_doc = if ctx.thorough { 60 } else { 30 };
+    for d in 0..ndocs {
+        if !ctx.mine(d) { continue; }
+        let mut r = ctx.rng(d);
+        ctx.begin(d, "");
+        let case = match make_case(&mut r, xdoc_cfg()) { Ok(c) => c, Err(e) => { ctx.inconclusive(&format!("document_not_usable:{}", crate::util::truncate(&e, 40))); continue; } };
+        let raw = if raw_equals_merged(&case.doc) { subject(&case.text, false).ok() } else { None };
+        let g = c05_gen(&case.doc);
+        for k in 0..per_doc {
+            let e = g.top(&mut r);
+            let sp = Spelling { abbrev: r.chance(1, 2), spaces: r.chance(1, 3), full_parens: false, redundant: false, outer_ws: false };
+            let estr = xp::render(&e, sp, Some(&mut r));
+            ctx.evaluations += 1;
+            for f in xp::feature_set(&e) { ctx.count(&format!("f/{}", f)); }
+            if d % 97 == 0 && k == 0 { ctx.sample(&format!("{}  ON  {}", estr, case.text)); }
+            for (view, subj) in [("merged", Some(&case.subj)), ("raw", raw.as_ref())] {
+                let subj = match subj { Some(s) => s, None => continue };
+                match judge(&case, &e, &estr, subj) {
+                    Ok(None) => { ctx.count(&format!("agree/{}", view)); ctx.nontrivial(&format!("{}|{}", estr, case.text)); }
+                    Ok(Some((kind, detail))) => {
+                        if kind == "panic" || kind == "steps" { ctx.count("totality-failure(see C06)"); continue; }
+                        // shrink the expression while the same kind of disagreement persists
+                        let small = xp::shrink(&e, &mut |c: &Expr| { let s = xp::render(c, Spelling::abbreviated(), None); matches!(judge(&case, c, &s, subj), Ok(Some((k, _))) if k == kind) });
+                        let sstr = xp::render(&small, Spelling::abbreviated(), None);
+                        ctx.violation(d, &format!("C05/{}/{}", kind, features_sig(&small)), &format!("{} :: expr {} :: shrunk {} :: view {} :: doc {}", detail, estr, sstr, view, case.text), &[("doc", &case.text), ("expr", &estr), ("shrunk", &sstr)]);
+                    }
+                    Err(why) => { ctx.inconclusive("oracle_disagreement"); if ctx.notes.len() < 10 { ctx.notes.push(format!("{} :: {} :: {}", why, estr, case.text)); } }
+                }
+            }
+        }
+    }
+}
+
+pub fn c06(_: &mut Ctx) {}
+pub fn c07(_: &mut Ctx) {}
+pub fn c08(_: &mut Ctx) {}
+pub fn c09(_: &mut Ctx) {}
+pub fn c10(_: &mut Ctx) {}
+pub fn c19(_: &mut Ctx) {}
+
+pub fn witness(prop: &str, f: &[String], _ctx: &mut Ctx) -> Option<String> {
+    // fields: kind, doc text, expression [, expected outcome brief]
+    let kind = f.first()?.as_str();
+    match (prop, kind) {
+        (_, "differs-from-libxml2") => {
+            let (text, expr) = (f.get(1)?, f.get(2)?);
+            let subj = subject(text, true).ok()?;
+            let (got, _) = xmlrs_eval(&subj, expr, &[], None, STEP_BUDGET);
+            let l = lib_eval(text, expr, &[])?;
+            diff(&l, &got).map(|k| format!("{}/{}", prop, k))
+        }
+        (_, "fails") => {
+            let (text, expr) = (f.get(1)?, f.get(2)?);
+            let subj = subject(text, true).ok()?;
+            let (got, _) = xmlrs_eval(&subj, expr, &[], None, STEP_BUDGET);
+            match got { Outcome::Panic(p) => Some(format!("{}/panic/{}", prop, p)), Outcome::Steps => Some(format!("{}/steps", prop)), _ => None }
+        }
+        _ => None,
+    }
+}
+
+#[allow(dead_code)]
+fn _unused(_: &Step, _: &Start, _: &Test, _: Op, _: RKind) {}
